@@ -228,3 +228,52 @@ Definition argv_check (cwd inp : string) (out : option string) (seen : list stri
 Definition direct_check (cwd pkg : string) (argv : list string) (obs_files : list string) : bool :=
   let fs := main_files cwd pkg argv in
   same_set obs_files (fs_canon (f_report fs) :: match f_json fs with Some j => [fs_canon j] | None => [] end).
+
+(* ================= HIP-RA-X: hip_ra_x/hip_ra_x.py main(), HipRaXClient, the Monte-Carlo driver's HipRaXClient call =========
+   main():  os.chdir(<package dir>); model.read_parameters() -> read_input_file(sys.argv[1])   (AFTER the chdir)
+            try: Calculate() except Exception: log;  try: PrintOutputs() except Exception: log   (failures swallowed)
+   PrintOutputs: outputfile = 'HIP.out' if len(sys.argv) <= 2 else sys.argv[2]; open(outputfile, 'w')
+   There is no __main__.py and no argument normalisation: the script is run as  python -m hip_ra_x.hip_ra_x <in> [<out>]. *)
+Record hip_io := { h_input : string; h_report : string }.
+Definition hip_files (pkg : string) (argv : list string) : hip_io :=
+  {| h_input := absolute pkg (nth 1 argv EmptyString);
+     h_report := absolute pkg (match nth_error argv 2 with Some o => o | None => "HIP.out" end) |}.
+
+(* reading + calculating one input FILE (identified by its canonical path): a report, or an exception while the
+   parameters are read (missing file, malformed / out-of-range value) - the only failures main() lets through *)
+Inductive hsim := HOk (report : string) | HFail.
+Record houtcome := { ho_raises : bool; ho_report_at : option string; ho_text : option string }.
+
+Section HipEntryPoints.
+  Variable hrun : string -> hsim.
+
+  (* dir_ok: the directory of the report exists (otherwise open() fails inside PrintOutputs and main() swallows it) *)
+  Definition hip_main (pkg : string) (argv : list string) (dir_ok : bool) : houtcome :=
+    let io := hip_files pkg argv in
+    match hrun (fs_canon (h_input io)) with
+    | HOk rep => if dir_ok then {| ho_raises := false; ho_report_at := Some (h_report io); ho_text := Some rep |}
+                 else {| ho_raises := false; ho_report_at := None; ho_text := None |}
+    | HFail => {| ho_raises := true; ho_report_at := None; ho_text := None |}
+    end.
+
+  (* python -m hip_ra_x.hip_ra_x <inp> [<out>] started in cwd: the arguments reach main() as typed; cwd plays no role *)
+  Definition hip_script (cwd pkg inp : string) (out : option string) (dir_ok : bool) : houtcome :=
+    hip_main pkg (EmptyString :: inp :: match out with Some o => [o] | None => [] end) dir_ok.
+  Definition hip_status (o : houtcome) : Z := if ho_raises o then 1 else 0.
+
+  (* HipRaXClient.get_hip_ra_result: argv = ['', input path as given, absolute temp output]; afterwards HipRaResult opens
+     the report, which raises when main() did not write it *)
+  Definition hip_client (pkg inp out : string) (dir_ok : bool) : houtcome :=
+    let o := hip_main pkg [EmptyString; inp; out] dir_ok in
+    match ho_report_at o with
+    | Some _ => o
+    | None => {| ho_raises := true; ho_report_at := None; ho_text := None |}
+    end.
+End HipEntryPoints.
+
+(* observed behaviour of one HIP-RA-X run against the model: ok_inputs = canonical paths of the existing, valid input files *)
+Definition hip_check (pkg : string) (argv : list string) (ok_inputs : list string) (dir_ok : bool)
+           (obs_raised : bool) (obs_files : list string) : bool :=
+  let o := hip_main (fun p => if mem_s p ok_inputs then HOk EmptyString else HFail) pkg argv dir_ok in
+  Bool.eqb obs_raised (ho_raises o)
+  && same_set obs_files (match ho_report_at o with Some r => [fs_canon r] | None => [] end).
